@@ -76,3 +76,62 @@ def unit_fixed_pressure_call(twin=False):
     r.add("reach.both_kinds", DISCHARGED if np_ and nv else UNDECIDED, "symex", 0, "%d fixed-pressure, %d fixed-volume paths" % (np_, nv), kind="vacuity")
     r.assumptions += ["calc_PR(phases, P, T, V_m) is under C19.calc_PR units", "the damping of V_m between iterations is not pinned"]
     return r
+
+
+def unit_mixing_rule(which, twin=False):
+    """van der Waals one-fluid mixing rule in calc_PR (both variants), inner loop over partner gases j for gas i:
+    a_ij = sqrt(a_i alpha_i a_j alpha_j) * k(i, j);  a_mix += x_i x_j a_ij;  the per-component sum (half the composition derivative of
+    a_mix, used in ln phi_i) += x_j a_ij with the PARTNER's mole fraction; partners with zero fraction are skipped; the per-component sum
+    starts at 0 for every gas i and is stored in that gas's record."""
+    rel, find_kw = {"gases": ("src/phreeqcpp/gases.cpp", {"nparams": 0}), "prep": ("src/phreeqcpp/prep.cpp", {"nparams": 4})}[which]
+    q = "Phreeqc::calc_PR"
+    fn = A.find_function(rel, q, **find_kw)
+    r = U.new_unit("C19.calc_PR[%s].mixing_rule" % which, rel, q, fn)
+    loops = [x for x in A.walk(fn) if x.get("kind") in ("ForStmt", "WhileStmt", "DoStmt")]
+    inner = [k for k, lp in enumerate(loops) if lp.get("kind") == "ForStmt" and "a_aa_sum2+=" in text_of(rel, lp["inner"][-1]) and not any(
+        y is not lp and y.get("kind") == "ForStmt" and "a_aa_sum2+=" in text_of(rel, y["inner"][-1]) for y in A.walk(lp))]
+    if len(inner) != 1:
+        raise Undecided("inner mixing loop of calc_PR[%s] not found (%d)" % (which, len(inner)))
+    c = ctx(functional=("calc_gas_binary_parameter",))
+    f, ex, its, info = U.run_loop_isolated(rel, q, inner[0], ctx=c, find_kw=find_kw)
+    n = skip = 0
+    for s in live(its, ("run", "cont")):
+        pi, pj = local(info, s, "phase_ptr"), local(info, s, "phase_ptr1")
+        F = lambda nm, o: fld0(ex, s, nm, "R", o)
+        xj = F("fraction_x", pj); xi = F("fraction_x", pi)
+        s1 = fld(ex, s, "a_aa_sum", "R"); s2 = local(info, s, "a_aa_sum2")       # a_aa_sum is a member of Phreeqc, the per-component sum a local
+        s10, s20 = fld0(ex, s, "a_aa_sum", "R"), tm.sym("iter_a_aa_sum2", "R")
+        if B.z3_prove(list(s.pc), tm.eq(xj, tm.num(0)))[0] == "proved":
+            skip += 1
+            r.add("absent_partner.adds_nothing", DISCHARGED if s1 is s10 and s2 is s20 else FAILED, "symex", 0, "", kind="frame")
+            continue
+        n += 1
+        kev = [e for e in U.iter_events(s) if e.name.endswith("calc_gas_binary_parameter")]
+        if len(kev) != 1:
+            r.add("pair.binary_parameter_looked_up_once", FAILED, "trace", 0, ""); continue
+        aij = tm.app("sqrt", (F("pr_a", pi) * F("pr_alpha", pi) * F("pr_a", pj) * F("pr_alpha", pj),), "R") * kev[0].result
+        U.discharge_eq_real(r, "pair.a_mix+=x_i*x_j*a_ij", list(s.pc), s1, s10 + xi * xj * aij)
+        U.discharge_eq_real(r, "pair.component_sum+=x_j*a_ij(partner's_fraction)", list(s.pc), s2, s20 + (xj if not twin else xi) * aij)
+    r.add("reach.pairs", DISCHARGED if n and skip else UNDECIDED, "symex", 0, "%d/%d" % (n, skip), kind="vacuity")
+    check_accumulator_init(r, fn, rel, loops[inner[0]], "a_aa_sum2", "component_sum")
+    t = text_of(rel, fn)
+    r.add("component_sum_stored_in_the_gas's_record", DISCHARGED if "phase_ptr->pr_aa_sum2=a_aa_sum2;" in t else FAILED, "syntactic", 0, "", kind="post")
+    r.assumptions += ["k(i,j) symmetric (C19.gas_binary_parameters)", "doubles as reals; sqrt uninterpreted"]
+    return r
+
+
+def unit_tidy_gas_phase_pressure_sum(twin=False):
+    """tidy_gas_phase: the sum of the initial partial pressures that fixes a new gas phase's total pressure, Peng-Robinson molar volume
+    and initial moles is the sum over THAT gas phase's components: it starts at 0 for every gas phase of the loop."""
+    TIDY = "src/phreeqcpp/tidy.cpp"
+    q = "Phreeqc::tidy_gas_phase"
+    fn = A.find_function(TIDY, q)
+    r = U.new_unit("C19.tidy_gas_phase.partial_pressure_sum_is_per_gas_phase", TIDY, q, fn, kind="structural")
+    loops = [x for x in A.walk(fn) if x.get("kind") == "ForStmt"]
+    acc = [lp for lp in loops if "P+=gas_phase_ptr->Get_gas_comps()[j].Get_p_read();" in text_of(TIDY, lp["inner"][-1])]
+    # the innermost accumulating loops
+    acc = [lp for lp in acc if not any(y is not lp and y in acc for y in A.walk(lp))]
+    r.add("reach.accumulating_loops", DISCHARGED if acc else UNDECIDED, "syntactic", 0, "%d" % len(acc), kind="vacuity")
+    for k, lp in enumerate(acc):
+        check_accumulator_init(r, fn, TIDY, lp, "P" if not twin else "V_m", "gas_phase[%d]" % k)
+    return r
